@@ -1,6 +1,7 @@
 (* C09 - a value written through a property is the value read back, siblings unaffected.
    Statements only; the proofs are in CostProofs.v.  Models: Cost.v (CostSpec), Txn.v (payee/narration,
    plain optional value properties).  Cost.v transcribes cost_spec.py *with*
+   fixes/costspec-raw-setter-atomic.patch (statement order of the raw setters) and
    fixes/costspec-currency-onto-number.patch (D11); C09_cost_unrepaired_refuted is the witness that
    the code before the patch does not satisfy C09_cost_sequences. *)
 From AB Require Import Prelude Cost Txn CostProofs.
@@ -34,6 +35,24 @@ Proof. exact accepted_iff_valid. Qed.
 Theorem C09_cost_refusal_atomic : forall s o s' e, Normal s -> apply s o = (s', Err e) ->
   e = ValueError /\ s' = s /\ sp_valid (sp_assign (abs s) o) = false.
 Proof. exact refusal. Qed.
+
+(* raw-level assignment (`cost.raw_number_per = node`, ...) of a free node (fresh or a deep copy):
+   the same refinement *)
+Theorem C09_cost_raw_refines : forall s r v s' x, Normal s -> rapply s r v false = (s', x) ->
+  Normal s' /\ (abs s', x) = sp_apply (abs s) (cop_of r v) /\ (forall e, x = Err e -> s' = s).
+Proof. exact rapply_refines. Qed.
+
+(* raw-level assignment of a node that is attached elsewhere: refused with ValueError by all three
+   setters from every state (normal or not), and nothing has been written (C19 for this file; the
+   statement order is that of fixes/costspec-raw-setter-atomic.patch; the D11 branch does not matter) *)
+Theorem C09_cost_raw_refusal_atomic : forall fixed s r v s' x,
+  rapply_gen fixed false s r (Some v) true = (s', x) -> x = Err ValueError /\ s' = s.
+Proof. exact raw_refusal_atomic. Qed.
+
+(* before that patch: `{{1 USD}}`, raw_number_per = attached node -> ValueError, but the braces are {} *)
+Theorem C09_cost_raw_unrepaired_refuted : exists s r v s' x,
+  Normal s /\ rapply_gen true true s r (Some v) true = (s', x) /\ x = Err ValueError /\ s' <> s.
+Proof. exact raw_late_refuted. Qed.
 
 (* from_value produces a normal state reading back its arguments, or refuses an invalid record *)
 Theorem C09_cost_from_value : forall p t c d l m,
